@@ -362,27 +362,52 @@ func ZZC03_copy_options() {
 	rSrc, _ := ref.New(zzHostB + "/src:v1")
 	rTgt, _ := ref.New(zzHostA + "/tgt:v1")
 
+	// referrers may live in a repository of their own (ImageWithReferrerSrc / ImageWithReferrerTgt)
+	extRef := zzBool("referrers_in_another_repository")
+	refRepo, refTgtRepo := "src", "tgt"
+	if extRef {
+		refRepo, refTgtRepo = "refs", "refstgt"
+	}
 	// an artifact that names the image as its subject, and a digest tag for it
 	sigBlob := []byte("signature")
-	sigDig := rb.PutBlob("src", sigBlob)
-	emptyDig := rb.PutBlob("src", []byte("{}"))
+	sigDig := rb.PutBlob(refRepo, sigBlob)
+	emptyDig := rb.PutBlob(refRepo, []byte("{}"))
 	art, _ := json.Marshal(map[string]interface{}{
 		"schemaVersion": 2, "mediaType": "application/vnd.oci.image.manifest.v1+json", "artifactType": "application/example.sig",
 		"config":  map[string]interface{}{"mediaType": "application/vnd.oci.empty.v1+json", "digest": emptyDig, "size": 2},
 		"layers":  []interface{}{map[string]interface{}{"mediaType": "application/octet-stream", "digest": sigDig, "size": len(sigBlob)}},
 		"subject": map[string]interface{}{"mediaType": w.top.MediaType, "digest": w.top.Digest.String(), "size": w.top.Size},
 	})
-	artDig := rb.PutManifest("src", "", "application/vnd.oci.image.manifest.v1+json", art)
+	artDig := rb.PutManifest(refRepo, "", "application/vnd.oci.image.manifest.v1+json", art)
+	if extRef {
+		// the digest tag below names the artifact in the image's own repository
+		rb.PutBlob("src", sigBlob)
+		rb.PutBlob("src", []byte("{}"))
+		rb.PutManifest("src", "", "application/vnd.oci.image.manifest.v1+json", art)
+	}
 	fallbackTag := "sha256-" + w.top.Digest.Encoded()
 	if !rb.ReferrersAPI {
 		idx, _ := json.Marshal(map[string]interface{}{
 			"schemaVersion": 2, "mediaType": "application/vnd.oci.image.index.v1+json",
 			"manifests": []interface{}{map[string]interface{}{"mediaType": "application/vnd.oci.image.manifest.v1+json", "digest": artDig, "size": len(art), "artifactType": "application/example.sig"}},
 		})
-		rb.PutManifest("src", fallbackTag, "application/vnd.oci.image.index.v1+json", idx)
+		rb.PutManifest(refRepo, fallbackTag, "application/vnd.oci.image.index.v1+json", idx)
 	}
 	digestTag := fallbackTag + ".sig"
 	rb.Repo("src").Tags[digestTag] = artDig
+	// with the referrers elsewhere, the image's own repository may carry a digest tag of exactly
+	// the name the other repository uses as its fallback tag
+	plainDT := extRef && zzBool("own_digest_tag_named_like_the_fallback_tag")
+	xDig := ""
+	if plainDT {
+		// a target that keeps referrers in a fallback tag of that very name would find a manifest it cannot
+		// merge into (the name is reserved there): the case is drawn for targets with the referrers API
+		zzAssume(ra.ReferrersAPI)
+		// (a plain manifest without a subject, so that its copy does not itself touch any referrers list)
+		rb.PutBlob("src", []byte("{}"))
+		x := []byte(`{"schemaVersion":2,"mediaType":"application/vnd.oci.image.manifest.v1+json","config":{"mediaType":"application/vnd.oci.empty.v1+json","digest":"` + emptyDig + `","size":2},"layers":[]}`)
+		xDig = rb.PutManifest("src", fallbackTag, "application/vnd.oci.image.manifest.v1+json", x)
+	}
 
 	// options and target pre-state
 	recursive, withRef, withDT := zzBool("force_recursive"), zzBool("referrers"), zzBool("digest_tags")
@@ -396,7 +421,15 @@ func ZZC03_copy_options() {
 	if withDT {
 		opts = append(opts, ImageWithDigestTags())
 	}
+	if extRef {
+		rs, _ := ref.New(zzHostB + "/refs")
+		rt, _ := ref.New(zzHostA + "/refstgt")
+		opts = append(opts, ImageWithReferrerSrc(rs), ImageWithReferrerTgt(rt))
+	}
 	incomplete := zzBool("target_equal_but_incomplete")
+	if extRef {
+		zzAssume(!recursive && !incomplete && withRef && withDT) // one complication at a time
+	}
 	if incomplete {
 		// the tag already names the source digest, manifests are there, one blob is missing
 		for _, d := range w.all {
@@ -417,7 +450,7 @@ func ZZC03_copy_options() {
 		}
 	}
 	ra.OnCommit = func(kind, repo, dg string, body []byte) {
-		if repo != "tgt" {
+		if repo != "tgt" && !(extRef && repo == "refstgt") {
 			zzFail("C03_copy_writes_only_to_the_target")
 		}
 		if kind == "manifest" {
@@ -451,16 +484,22 @@ func ZZC03_copy_options() {
 			zzAssert(ok && string(got) == string(w.bytes[d]), "C03_closure_present_and_identical")
 		}
 	}
-	hasArt := func() bool {
-		b, ok := tgt.Manifests[artDig]
-		_, ok1 := tgt.Blobs[sigDig]
-		_, ok2 := tgt.Blobs[emptyDig]
+	hasArtIn := func(rp *zzreg.Repo) bool {
+		b, ok := rp.Manifests[artDig]
+		_, ok1 := rp.Blobs[sigDig]
+		_, ok2 := rp.Blobs[emptyDig]
 		return ok && string(b) == string(art) && ok1 && ok2
 	}
+	hasArt := func() bool { return hasArtIn(tgt) }
 	if withRef {
 		zzReach("referrers_requested")
-		zzAssert(hasArt(), "C03_referrer_copied_with_its_content")
-		rl, lerr := rc.ReferrerList(ctx, rTgt.SetDigest(w.top.Digest.String()))
+		zzAssert(hasArtIn(ra.Repo(refTgtRepo)), "C03_referrer_copied_with_its_content")
+		rLst := rTgt
+		if extRef {
+			zzReach("referrers_copied_between_other_repositories")
+			rLst, _ = ref.New(zzHostA + "/refstgt")
+		}
+		rl, lerr := rc.ReferrerList(ctx, rLst.SetDigest(w.top.Digest.String()))
 		zzAssert(lerr == nil, "C03_referrers_listed_at_target")
 		n := 0
 		for _, d := range rl.Descriptors {
@@ -474,6 +513,12 @@ func ZZC03_copy_options() {
 		zzReach("digest_tags_requested")
 		zzAssert(tgt.Tags[digestTag] == artDig, "C03_digest_tag_copied")
 		zzAssert(hasArt(), "C03_digest_tag_content_copied")
+		if plainDT {
+			zzReach("own_digest_tag_beside_external_referrers")
+			zzAssert(tgt.Tags[fallbackTag] == xDig, "C03_digest_tag_copied")
+			_, okx := tgt.Manifests[xDig]
+			zzAssert(okx, "C03_digest_tag_content_copied")
+		}
 	}
 }
 
@@ -734,7 +779,9 @@ func ZZC03_copy_cancel() {
 // is listed at the target exactly once.
 func ZZC03_copy_referrer_filters() {
 	zzSmall = true
+	zzSingleImageWorld = true
 	w := zzBuildWorld()
+	zzSingleImageWorld = false
 	ra, rb := zzreg.New(zzHostA), zzreg.New(zzHostB)
 	ra.ValidateRefs, rb.ValidateRefs = false, false
 	net := &zzNet{regs: map[string]*zzreg.Registry{zzHostA: ra, zzHostB: rb}, ext: map[string][]byte{}}
